@@ -86,7 +86,7 @@ def classify_external(q: str) -> str:
         name = q.split(".")[1]
         if any(name == f or name.startswith(f) for f in _OS_FORBIDDEN):
             return "forbidden"
-        return "inert" if q in INERT_EXACT or name in ("fspath", "getcwd", "stat", "fstat", "listdir", "scandir", "walk", "getpid", "sep", "environ", "getenv", "devnull", "name") else "unaudited"
+        return "inert" if q in INERT_EXACT or name in ("fspath", "getcwd", "stat", "fstat", "listdir", "scandir", "walk", "getpid", "sep", "environ", "getenv", "devnull", "name", "path") else "unaudited"
     if q.startswith("pathlib."):
         return "forbidden" if q.split(".")[-1] in _PATHLIB_FORBIDDEN else "inert"
     if q.startswith(("zipfile.", "tarfile.")):
